@@ -435,10 +435,11 @@ const (
 	FaultErr
 	FaultErrPartial
 	FaultPanic
+	FaultCBPanic // the function's *callback* panics after these executions (the function itself behaves)
 )
 
 func (k FaultKind) String() string {
-	return [...]string{"none", "err", "err+partial", "panic"}[k]
+	return [...]string{"none", "err", "err+partial", "panic", "callback-panic"}[k]
 }
 
 // Fault makes executions [From, To) of function Fn fail (To < 0: forever).
